@@ -227,7 +227,11 @@ def run(chk):
             try:
                 _out, _err = WI.guarded_call(world, graph, b, lambda: fn(b))
                 if isinstance(_err, str):
-                    chk.failure("schedule %s %s" % (name, _err), dict(base_case, order=None, schedule=name))
+                    # the listed finding falsy-component-run (dr.run(c) for a single falsy component object takes the default
+                    # graph) stopped by the guard: same input predicate as the classification of that schedule below
+                    _falsy_single = name == "run(component)" and len(targets) == 1 and spec[targets[0]].get("falsy")
+                    chk.failure("schedule %s %s" % (name, _err), dict(base_case, order=None, schedule=name),
+                                finding=KNOWN_FALSY_RUN if _falsy_single else None)
                     return
                 if _err is not None:
                     raise _err
@@ -814,6 +818,9 @@ def _replay_once(data):
         except Exception as ex:
             t = "raised %r" % (ex,)
         print("%s: %s" % (name, t))
+        if name == "run(component)" and len(case["targets"]) == 1 and case["spec"][case["targets"][0]].get("falsy") and t != plain(ref.text):
+            print("oracle (known finding %s): dr.run(c) for a single falsy component object evaluates the default graph" % KNOWN_FALSY_RUN)
+            continue
         bad |= t != plain(ref.text)
     print("property violated on this input" if bad else "property holds on this input")
     return 1 if bad else 0
